@@ -173,23 +173,29 @@ def applyRule (p : Prog) (r : RuleIR) (ms : List Slot) : Option (List (Option Sl
         -- attribute assignments, in order; reads see the current view (this slot included)
         for a in it.attrs do
           if a.attr == "user" then
-            -- `@k`: the item's own slot is seen with the assignments made so far. Another item's slot is seen as it was
-            -- when the rule matched if the rule changes its glyph or associations (libgraphite2 keeps a copy of a slot that
-            -- is both changed and referenced), and in its current state if the rule only sets attributes on it (those are
-            -- set in place). The second half is the reference engine's behaviour, not something the GDL text fixes.
+            -- Which state of a slot does a read see?  libgraphite2 keeps a copy of every slot that the rule both changes
+            -- (put_glyph / put_subs / put_copy: every modified item of a rule written with '>') and reads (any @k, a read
+            -- of the item's own attributes, or the item's own selector in a class-to-class substitution); reads of such a
+            -- slot - also by its own item - see it as it was when the rule matched.  A slot on which the rule only sets
+            -- attributes is changed in place, and reads see the assignments made so far.  This is the reference
+            -- engine's behaviour; the GDL text itself only says that references denote the matched slots.
+            let hasArrow : Bool := r.items.any fun x => x.mod && (x.out.isSome || x.inCls.isNone)
+            let changedItem (k0 : Nat) : Bool :=
+              match r.items[k0]? with
+              | some itk =>
+                let notSelfCopy : Bool := match itk.out with | some (.copy n) => n != k0 + 1 | _ => true
+                (itk.mod && hasArrow && notSelfCopy && itk.out != some OutSpec.del)
+              | none => false
             let slotAt (k : Nat) : Option Slot :=
-              if k - 1 == j then some s
-              else match r.items[k - 1]? with
-                | some itk =>
-                  if itk.inCls.isNone then none
-                  else
-                    -- in a rule written with '>' every modified item has a right-hand side (put_glyph / put_subs / put_copy)
-                    let hasArrow : Bool := r.items.any fun x => x.mod && (x.out.isSome || x.inCls.isNone)
-                    let notSelfCopy : Bool := match itk.out with | some (.copy n) => n != k | _ => true
-                    let changed : Bool := (itk.mod && hasArrow && notSelfCopy) || !itk.assoc.isEmpty
-                    if changed then ms[inIdx r (k - 1)]? else view.getD (k - 1) none
-                | none => none
-            match evalE p slotAt (some s) a.val with
+              match r.items[k - 1]? with
+              | some itk =>
+                if itk.inCls.isNone then (if k - 1 == j then some s else none)
+                else if changedItem (k - 1) then ms[inIdx r (k - 1)]?
+                else if k - 1 == j then some s
+                else view.getD (k - 1) none
+              | none => none
+            let curRead : Option Slot := slotAt (j + 1)
+            match evalE p slotAt curRead a.val with
             | none => stop := true
             | some v =>
               let old := s.user.getD a.idx 0
